@@ -2,6 +2,7 @@ package props
 
 import (
 	"fmt"
+	"math/big"
 	"math/rand"
 
 	"github.com/consensys/gnark/frontend"
@@ -228,6 +229,12 @@ func init() {
 				for i := 0; i < nreuse; i++ {
 					cs = append(cs, fw.Case{ID: fmt.Sprintf("twochips/%d", i), Kind: "twochips", P: map[string]any{"i": i}})
 				}
+				for _, shape := range []string{"real", "synth"} {
+					cs = append(cs, fw.Case{ID: "compiled/r1cs/" + shape, Kind: "compiled", P: map[string]any{"sys": "r1cs", "shape": shape}})
+					if !ctx.Quick {
+						cs = append(cs, fw.Case{ID: "compiled/scs/" + shape, Kind: "compiled", P: map[string]any{"sys": "scs", "shape": shape}})
+					}
+				}
 				for nch := 1; nch <= 3; nch++ {
 					for qdf := 1; qdf <= 8; qdf++ {
 						routeds := []int{2, 3, 7, 8, 16, 24, 80}
@@ -262,6 +269,9 @@ func init() {
 				}
 				if c.Kind == "twochips" {
 					return c16TwoChips(ctx, c)
+				}
+				if c.Kind == "compiled" {
+					return c16Compiled(ctx, c)
 				}
 				var s plonkShape
 				if c.Kind == "real" {
@@ -342,6 +352,104 @@ func init() {
 			},
 		}
 	})
+}
+
+// c16Compiled: PlonkChip.Verify compiled with gnark's real builders for one shape; valid
+// synthetic identities must be solvable, broken ones not.
+func c16Compiled(ctx *fw.Ctx, c fw.Case) fw.Outcome {
+	var o fw.Outcome
+	r := ctx.Rand(c.ID)
+	sys := c.Str("sys")
+	var s plonkShape
+	if c.Str("shape") == "real" {
+		s = realShape()
+	} else {
+		s = synthShape(r, 11, 4, 2)
+	}
+	flatE := func(dst []*big.Int, es []ref.E) []*big.Int {
+		for _, e := range es {
+			dst = append(dst, bu(e[0]), bu(e[1]))
+		}
+		return dst
+	}
+	flat := func(pi *plonkInstance) []*big.Int {
+		var f []*big.Int
+		for _, l := range [][]ref.E{pi.Open.Constants, pi.Open.PlonkSigmas, pi.Open.Wires, pi.Open.PlonkZs, pi.Open.PlonkZsNext, pi.Open.PartialProducts, pi.Open.QuotientPolys} {
+			f = flatE(f, l)
+		}
+		for _, l := range [][]uint64{pi.Betas, pi.Gammas, pi.Alphas} {
+			for _, x := range l {
+				f = append(f, bu(x))
+			}
+		}
+		f = append(f, bu(pi.Zeta[0]), bu(pi.Zeta[1]))
+		for _, x := range pi.PIH {
+			f = append(f, bu(x))
+		}
+		return f
+	}
+	var tmpl *plonkInstance
+	for tmpl == nil {
+		if pi, _, ok := solveInstance(r, s); ok {
+			tmpl = pi
+		}
+	}
+	lens := []int{len(tmpl.Open.Constants), len(tmpl.Open.PlonkSigmas), len(tmpl.Open.Wires), len(tmpl.Open.PlonkZs), len(tmpl.Open.PlonkZsNext), len(tmpl.Open.PartialProducts), len(tmpl.Open.QuotientPolys)}
+	nIn := len(flat(tmpl))
+	fn := func(api frontend.API, in []frontend.Variable) []frontend.Variable {
+		pos := 0
+		takeE := func(n int) []gl.QuadraticExtensionVariable {
+			out := make([]gl.QuadraticExtensionVariable, n)
+			for i := range out {
+				out[i] = gl.QuadraticExtensionVariable{gl.NewVariable(in[pos]), gl.NewVariable(in[pos+1])}
+				pos += 2
+			}
+			return out
+		}
+		takeF := func(n int) []gl.Variable {
+			out := make([]gl.Variable, n)
+			for i := range out {
+				out[i] = gl.NewVariable(in[pos])
+				pos++
+			}
+			return out
+		}
+		oset := variables.OpeningSet{Constants: takeE(lens[0]), PlonkSigmas: takeE(lens[1]), Wires: takeE(lens[2]), PlonkZs: takeE(lens[3]), PlonkZsNext: takeE(lens[4]), PartialProducts: takeE(lens[5]), QuotientPolys: takeE(lens[6])}
+		ch := variables.ProofChallenges{PlonkBetas: takeF(s.NumChallenges), PlonkGammas: takeF(s.NumChallenges), PlonkAlphas: takeF(s.NumChallenges)}
+		ch.PlonkZeta = takeE(1)[0]
+		hh := takeF(4)
+		chip := plonk.NewPlonkChip(api, s.common())
+		chip.Verify(ch, oset, poseidon.GoldilocksHashOut{hh[0], hh[1], hh[2], hh[3]})
+		return nil
+	}
+	var ios []compiledIO
+	n := 2
+	if !ctx.Quick {
+		n = 6
+	}
+	for len(ios) < 2*n {
+		pi, _, ok := solveInstance(r, s)
+		if !ok {
+			continue
+		}
+		ios = append(ios, compiledIO{In: flat(pi)})
+		// the same instance with one opening changed
+		q := *pi
+		q.Open.PlonkSigmas = append([]ref.E(nil), pi.Open.PlonkSigmas...)
+		k := r.Intn(len(q.Open.PlonkSigmas))
+		q.Open.PlonkSigmas[k][r.Intn(2)] = ref.Add(q.Open.PlonkSigmas[k][0], 1+uint64(r.Intn(9)))
+		rv, zpn, _ := refVanishing(s, &q)
+		if ref.PlonkCheck(ref.PlonkShape{NumChallenges: s.NumChallenges, QuotientDegreeFactor: s.QDF}, rv, zpn, q.Open.QuotientPolys) {
+			ios = ios[:len(ios)-1]
+			continue
+		}
+		ios = append(ios, compiledIO{In: flat(&q), Reject: true})
+	}
+	if v, bad := compiledAgree(&o, sys, "plonk_"+c.Str("shape"), fn, nIn, 0, ios); bad {
+		return v
+	}
+	o.Sample = map[string]any{"system": sys, "shape": c.Str("shape"), "inputs": nIn}
+	return o
 }
 
 // c16TwoChips: several PlonkChips with DIFFERENT circuit descriptions built in one circuit
